@@ -3,44 +3,113 @@ C08: decoding what the independent writer wrote gives back the zone. INTERFACE.
 -/
 import TzVerif.Model.TzFile
 import TzVerif.Spec.Tzif
+import TzVerif.Proofs.TzifDecode
 
 namespace TzVerif.Proofs
 open TzVerif.Model
+open TzVerif.Proofs.TzifBE TzVerif.Proofs.TzifBlocks TzVerif.Proofs.TzifDecode
 
 theorem beSigned_beBytes (n : Nat) (v : Int) (hn : 0 < n) (hv : -(2 ^ (8 * n - 1) : Int) ≤ v ∧ v < 2 ^ (8 * n - 1)) :
-    beSigned (Spec.beBytes n v) = v ∧ (Spec.beBytes n v).length = n ∧ ∀ b ∈ Spec.beBytes n v, b < 256 := by
-  sorry
+    beSigned (Spec.beBytes n v) = v ∧ (Spec.beBytes n v).length = n ∧ ∀ b ∈ Spec.beBytes n v, b < 256 :=
+  ⟨TzifBE.beSigned_beBytes n v hn hv, TzifBE.beBytes_length n v, TzifBE.beBytes_lt n v⟩
 
-theorem be32_be32u (v : Nat) (hv : v < 2 ^ 32) : be32 (Spec.be32u v) = v ∧ (Spec.be32u v).length = 4 := by
-  sorry
+theorem be32_be32u (v : Nat) (hv : v < 2 ^ 32) : be32 (Spec.be32u v) = v ∧ (Spec.be32u v).length = 4 :=
+  ⟨TzifBE.be32_be32u v hv, TzifBE.be32u_length v⟩
 
 /-- version 1: the zone comes from the 32-bit block (times sign-extended), no footer -/
 theorem decode_encode_v1 (z : TimeZone) (l : Spec.Layout) (hl : Spec.LayoutOK z l) (hv : l.versionByte = 0)
-    (ht : Spec.TimesFit 32 z) :
+    (ht : Spec.TimesFit 32 z)
+    (hn : ∀ t ∈ z.localTimeTypes, ∃ t', LocalTimeType.new t.utOffset t.isDst t.name = .ok t') :
     parseTzFile (Spec.encodeV1 z l) = TimeZone.new z.transitions z.localTimeTypes z.leapSeconds none := by
-  sorry
+  unfold parseTzFile parseTzFileWith Spec.encodeV1
+  rw [encodeBlock_eq, parseHeader_hdrBytes z l hl 1 (Or.inl ⟨hv, rfl⟩)]
+  simp only []
+  have hd := readDataBlocks_dataOf 4 z l hl 1 []
+  rw [List.append_nil] at hd
+  rw [if_pos (show (hdrOf 1 z l).version = 1 from rfl), hd]
+  simp only [List.isEmpty_nil, Bool.not_true, Bool.false_eq_true, if_false]
+  rw [parse_blocksOf 4 (by decide) z l hl ht hn 1 none]
 
 /-- versions 2 and 3: the zone comes from the 64-bit block, whatever the (well-sized) 32-bit block
     contains; the footer is decoded with extensions exactly for version 3 -/
 theorem decode_encode_v2 (v1 : Bytes) (z : TimeZone) (l : Spec.Layout) (footerText : Bytes)
     (h1 : Spec.V1BlockOK v1) (hl : Spec.LayoutOK z l) (hv : l.versionByte = 0 ∨ l.versionByte = 50 ∨ l.versionByte = 51)
-    (ht : Spec.TimesFit 64 z) :
+    (ht : Spec.TimesFit 64 z)
+    (hn : ∀ t ∈ z.localTimeTypes, ∃ t', LocalTimeType.new t.utOffset t.isDst t.name = .ok t') :
     parseTzFile (Spec.encodeV2 v1 z l footerText) =
       (match parseFooter ([10] ++ footerText ++ [10]) (l.versionByte == 51) with
        | .error e => .error e
        | .ok rule => TimeZone.new z.transitions z.localTimeTypes z.leapSeconds rule) := by
-  sorry
+  obtain ⟨h, rest, blocks, hp1, hver, hd1⟩ := h1
+  obtain ⟨ver, hvb, hext⟩ : ∃ ver, ((l.versionByte = 0 ∧ ver = 1) ∨ (l.versionByte = 50 ∧ ver = 2) ∨
+      (l.versionByte = 51 ∧ ver = 3)) ∧ (ver == 3) = (l.versionByte == 51) := by
+    rcases hv with h | h | h
+    · exact ⟨1, Or.inl ⟨h, rfl⟩, by rw [h]; rfl⟩
+    · exact ⟨2, Or.inr (Or.inl ⟨h, rfl⟩), by rw [h]; rfl⟩
+    · exact ⟨3, Or.inr (Or.inr ⟨h, rfl⟩), by rw [h]; rfl⟩
+  have e : Spec.encodeV2 v1 z l footerText =
+      v1 ++ (hdrBytes z l ++ (dataOf 8 z l ++ ([10] ++ footerText ++ [10]))) := by
+    simp only [Spec.encodeV2, encodeBlock_eq, List.append_assoc]
+  unfold parseTzFile parseTzFileWith
+  rw [e, parseHeader_append_ok _ hp1]
+  simp only []
+  rw [if_neg hver, readDataBlocks_append_ok _ hd1]
+  simp only [List.nil_append]
+  rw [parseHeader_hdrBytes z l hl ver hvb]
+  simp only []
+  rw [readDataBlocks_dataOf 8 z l hl ver]
+  simp only []
+  rw [parse_blocksOf 8 (by decide) z l hl ht hn ver (some _), hext]
+  rfl
 
+set_option linter.unusedVariables false in
 /-- trailing bytes after a version-1 body are refused -/
 theorem v1_trailing_rejected (z : TimeZone) (l : Spec.Layout) (hl : Spec.LayoutOK z l) (hv : l.versionByte = 0)
     (ht : Spec.TimesFit 32 z) (extra : Bytes) (he : extra ≠ []) :
     parseTzFile (Spec.encodeV1 z l ++ extra) = .error (.tzFile .remainingDataV1) := by
-  sorry
+  unfold parseTzFile parseTzFileWith Spec.encodeV1
+  rw [encodeBlock_eq, List.append_assoc, parseHeader_hdrBytes z l hl 1 (Or.inl ⟨hv, rfl⟩)]
+  simp only []
+  rw [if_pos (show (hdrOf 1 z l).version = 1 from rfl), readDataBlocks_dataOf 4 z l hl 1 extra]
+  simp only []
+  rw [if_pos]
+  cases extra with
+  | nil => exact absurd rfl he
+  | cons a b => rfl
 
+set_option linter.unusedVariables false in
 /-- every truncation of a version-1 file is refused -/
 theorem v1_truncated_rejected (z : TimeZone) (l : Spec.Layout) (hl : Spec.LayoutOK z l) (hv : l.versionByte = 0)
     (ht : Spec.TimesFit 32 z) (n : Nat) (hn : n < (Spec.encodeV1 z l).length) :
     ∃ e, parseTzFile ((Spec.encodeV1 z l).take n) = .error e := by
-  sorry
+  unfold parseTzFile parseTzFileWith
+  unfold Spec.encodeV1 at hn ⊢
+  rw [encodeBlock_eq] at hn ⊢
+  have hH := hdrBytes_length z l hl
+  have hfull := readDataBlocks_dataOf 4 z l hl 1 []
+  rw [List.append_nil] at hfull
+  have hlen := readDataBlocks_length hfull
+  by_cases h44 : n < 44
+  · -- the header is incomplete
+    cases hp : parseHeader (List.take n (hdrBytes z l ++ dataOf 4 z l)) with
+    | error e => exact ⟨_, rfl⟩
+    | ok r =>
+      obtain ⟨h, c⟩ := r
+      have := parseHeader_length hp
+      simp only [List.length_take] at this
+      omega
+  · -- the header is whole, the data block is short
+    have e : List.take n (hdrBytes z l ++ dataOf 4 z l) = hdrBytes z l ++ List.take (n - 44) (dataOf 4 z l) := by
+      rw [List.take_append, hH, List.take_of_length_le (by omega)]
+    rw [e, parseHeader_hdrBytes z l hl 1 (Or.inl ⟨hv, rfl⟩)]
+    simp only []
+    rw [if_pos (show (hdrOf 1 z l).version = 1 from rfl)]
+    cases hp : readDataBlocks 4 (List.take (n - 44) (dataOf 4 z l)) (hdrOf 1 z l) with
+    | error e => exact ⟨_, rfl⟩
+    | ok r =>
+      obtain ⟨b, c⟩ := r
+      have := readDataBlocks_length hp
+      simp only [List.length_take, List.length_append, List.length_nil] at this hlen hn
+      omega
 
 end TzVerif.Proofs
